@@ -346,6 +346,7 @@ PROPS["C18"] = {
          "thorough": {"params": "alllengths=1", "workers": 16, "timeout": 3600}},
         {"pkg": "kv", "dir": "kv", "entry": "VerifH_C18_arbitrary", "no_native": True, "reach": ["end", "accepted"],
          "quick": {"params": "maxbuf=72", "workers": 16, "timeout": 1200}},
+        {"pkg": "kv", "dir": "kv", "entry": "VerifH_C18_passphrase", "no_native": True, "quick": {"workers": 4, "timeout": 600}},
         {"pkg": "kv", "dir": "kv", "entry": "VerifH_C18_wrapping",
          "quick": {"workers": 1, "timeout": 600}},
     ],
